@@ -105,6 +105,7 @@ func runMS(t *testing.T, sc *msSc) (res verifsim.Result) {
 	streamPeer := map[int]int{}
 	lateThenOK := 0
 	concurrentSamePeer := 0
+	storm := false // more streams opened than any schedule of the scripted calls and their single retries can account for
 	out := verifsim.Bubble(t, func() {
 		start := time.Now()
 		now := func() time.Duration { return time.Since(start) }
@@ -137,9 +138,16 @@ func runMS(t *testing.T, sc *msSc) (res verifsim.Result) {
 			nStreams++
 			streams = append(streams, nil)
 			td := tornDown
+			if idx >= 2000 {
+				storm = true
+			}
 			mu.Unlock()
 			if td {
 				return nil, errors.New("verif: torn down")
+			}
+			if idx >= 2000 {
+				// (a sender that reopens streams without bound never blocks: it would keep the bubble busy at one virtual instant)
+				return nil, errors.New("verif: stream storm")
 			}
 			if len(sc.DialMs) > 0 {
 				if err := verifnet.WaitContext(ctx, time.Duration(sc.DialMs[idx%len(sc.DialMs)])*time.Millisecond); err != nil {
@@ -364,6 +372,10 @@ func runMS(t *testing.T, sc *msSc) (res verifsim.Result) {
 	})
 	if !out.OK() {
 		res.Fail("terminates", "C11/sender/hang-or-panic", "%s %s\n%s", out.Deadlock, out.Panic, out.Stacks)
+		return
+	}
+	if storm {
+		res.Fail("bounded-attempts", "C11/sender/stream-storm", "2000 streams were opened in one case: the scripted calls (one attempt and one retry each) account for a few dozen at most")
 		return
 	}
 	// ---- oracle
